@@ -82,7 +82,11 @@ def flowClause (tm : Int) (r : FlowRule) : Nat :=
       decide (r.tcs = 2 ∧ r.memLow ≥ r.memHigh) ]
 
 /-- a generator is registered in `tcGenFuncMap` (and then always returns a controller) -/
-def flowBuildable (r : FlowRule) : Bool := (r.tcs = 0 ∨ r.tcs = 1 ∨ r.tcs = 2) ∧ (r.cb = 0 ∨ r.cb = 1)
+def flowBuildable (r : FlowRule) : Bool :=
+  ((r.tcs = 0 ∨ r.tcs = 1 ∨ r.tcs = 2) ∧ (r.cb = 0 ∨ r.cb = 1)) ∨ (r.tcs = 7 ∧ r.cb = 9)
+
+/-- the (strategy, behaviour) pair the harness registers its own generator for (`SetTrafficShapingGenerator`) -/
+def flowCustom (r : FlowRule) : Bool := r.tcs = 7 ∧ r.cb = 9
 
 /-- `NewWarmUpTrafficShapingCalculator` writes the default cold factor into the caller's rule -/
 def flowNorm (r : FlowRule) : FlowRule := if r.tcs = 1 ∧ r.wuCf ≤ 1 then { r with wuCf := 3 } else r
@@ -186,7 +190,10 @@ def cbClause (r : CbRule) : Nat :=
       decide (r.strategy = 0 ∧ r.th > thQ),
       decide (r.strategy = 1 ∧ r.th > thQ) ]
 
-def cbBuildable (r : CbRule) : Bool := r.strategy ≤ 2
+def cbBuildable (r : CbRule) : Bool := r.strategy ≤ 2 ∨ r.strategy = 7
+
+/-- the strategy the harness registers its own generator for (`SetCircuitBreakerGenerator`) -/
+def cbCustom (r : CbRule) : Bool := r.strategy = 7
 
 /-- `(*Rule).isEqualsTo` of the circuit breaker: decides breaker reuse -/
 def cbIsEqualsTo (a b : CbRule) : Bool :=
@@ -373,6 +380,41 @@ def run (ops : List (Op R)) : MState R := ops.foldl (fun s op => (step M s op).1
 def getRes (s : MState R) (k : String) : List R := s.pub k
 /-- `GetRules` (in some map order: compare as a multiset) -/
 def getAll (s : MState R) : List R := s.keys.eraseDups.flatMap s.pub
+
+/-! ### a generator that errors or panics (the registry is open: `SetTrafficShapingGenerator`, `SetCircuitBreakerGenerator`)
+
+`custom r` says that `r` is built by the harness' generator, whose behaviour at the time of a load is `g`. -/
+
+inductive GenMode | ok | fail | panic
+deriving DecidableEq, Repr, Inhabited
+
+/-- the module as it behaves while the custom generator returns an error: such a rule gets no controller
+    (`bad generated traffic controller` / `bad generated circuit breaker`: logged, skipped) -/
+def withGen (custom : R → Bool) (g : GenMode) : RuleMod R :=
+  { M with buildable := fun r => if custom r then M.buildable r && g != .fail else M.buildable r }
+
+/-- does the build of these (valid) rules call the custom generator? (an equal old controller is kept without calling it) -/
+def hitsGen (custom : R → Bool) (k : String) : List R → List R → Bool
+  | [], _ => false
+  | r :: rs, old =>
+    if M.scopedRes && M.res r != k then hitsGen custom k rs old
+    else match findEq M r old with
+      | some (_, rest) => hitsGen custom k rs rest
+      | none =>
+        if !M.buildable r then hitsGen custom k rs old
+        else if custom r then true
+        else hitsGen custom k rs (dropStat M r old)
+
+/-- `LoadRules` while the custom generator is in mode `g`: a panic inside the build is caught by the deferred `recover`
+    of `onRuleUpdate` before anything is swapped or cached: `(true, err)`, state untouched -/
+def loadAllG (custom : R → Bool) (g : GenMode) (s : MState R) (rules : List (Option R)) : MState R × Outcome :=
+  if g = .panic ∧ (loadAll M s rules).2 = .changed ∧
+      (ruleKeys M rules).any (fun k => hitsGen M custom k (validList M (proj M k rules)) (s.bound k)) then (s, .changedErr)
+  else loadAll (withGen M custom g) s rules
+
+def loadResG (custom : R → Bool) (g : GenMode) (s : MState R) (res : String) (rules : List (Option R)) : MState R × Outcome :=
+  if g = .panic ∧ (loadRes M s res rules).2 = .changed ∧ hitsGen M custom res (validList M rules) (s.bound res) then (s, .changedErr)
+  else loadRes (withGen M custom g) s res rules
 
 /-! ### controller identities: which controller *objects* are in force (a reused controller keeps its identity and
 its runtime state — pacer, breaker state, counters —, a built one is fresh) -/
@@ -599,6 +641,7 @@ def isoProbe (enf : List IsoRule) (batch : Nat) : Bool := enf.any fun r => r.met
     (Modelled for `minReq ≠ 2`; the ratio strategies see ratio 1, which reaches every threshold ≤ 1.) -/
 def cbOpens (r : CbRule) : Bool :=
   decide (r.minReq ≤ 1) &&
+    decide (r.strategy ≤ 2) &&                          -- the harness' own breaker (strategy 7) never opens
     (if r.strategy = 2 then decide (r.th < 2 * thQ)          -- errorCount 1 ≥ uint64(threshold)
      else decide (r.th ≤ thQ) || f64Equals thQ r.th)     -- ratio 1 > threshold || Float64Equals(1, threshold)
 def cbProbe (enf : List CbRule) : Bool := enf.any cbOpens
